@@ -20,13 +20,16 @@ from fractions import Fraction
 import torch
 
 from .aggsym_common import (EPS, F64, NORM_EPS, PE_NORM, ROSTER, build, call, cond_of, ld, maxdiff, mgda_gap,
-                            norm_eps_side, present, rationalise, ref_of, split_padded)
+                            norm_eps_side, present, presented, rationalise, ref_of, split_padded)
 from .core import Ctx, MachineryError
 from .tlc import run_tlc
 
 SCALES = [0, 0, -10, -14, -20, -34, 20, 40]
 CSTEP, CMAX, ABMAX, MAXZERO = 1024, 1048576, 3, 3
 PADMAX = 16384
+WIDEKMAX = 5
+WIDTHS = [521, 769, 1023, 1025, 2053, 4099, 8191, 16381]
+PRESENTATIONS = ["fresh", "fresh", "refill", "view", "newview"]
 
 # ------------------------------------------------------------------------------------------ exact classification
 
@@ -123,14 +126,18 @@ class Inst:
         self.den = 1
         self.P, self.W = P0[:], W0[:]
         self.c1, self.c2, self.a, self.b = [1] * self.m, [1] * self.m, 1, 1
-        self.pad = {"cnt": 0, "lay": "none"}          # PadZero: zero columns that are not materialised here
+        self.pad = {"cnt": 0, "lay": "none", "wk": 0}  # PadZero / WideTo: the presentation, not materialised here
 
     @property
     def padpos(self) -> list[int]:
-        """1-based position of materialised column j in the presented matrix (this driver's own index map; the
-        trace specification compares it with PadPosSeq)."""
-        k, n = self.pad["cnt"], self.n
-        return [j + ((j - 1) * k) // n if self.pad["lay"] == "interleave" else j for j in range(1, n + 1)]
+        """1-based position, in the presented matrix, of the first copy of every column and of the last materialised
+        column (this driver's own index map; the trace specification compares it with PadPosSeq)."""
+        k, n, r = self.pad["cnt"], self.n, 4 ** self.pad["wk"]
+        nw = n * r
+
+        def pos(j):
+            return j + ((j - 1) * k) // nw if self.pad["lay"] == "interleave" else j + k if self.pad["lay"] == "prepend" else j
+        return [pos((q - 1) * r + 1) for q in range(1, n + 1)] + [pos(nw)]
 
     @property
     def n(self):
@@ -143,12 +150,18 @@ class Inst:
     def apply(self, g: dict) -> bool:
         k = g["g"]
         i, j = g["i"] - 1, g["j"] - 1
-        if self.pad["cnt"]:
-            return False                               # PadZero closes a word
+        if self.pad["cnt"] or self.pad["wk"]:
+            return False                               # PadZero / WideTo close a word
         if k == "pad":
-            if not (1 <= g["i"] <= PADMAX and g["lay"] in ("append", "interleave")):
+            if not (1 <= g["i"] <= PADMAX and g["lay"] in ("append", "interleave", "prepend")):
                 return False
-            self.pad = {"cnt": g["i"], "lay": g["lay"]}
+            self.pad = {"cnt": g["i"], "lay": g["lay"], "wk": 0}
+        elif k == "wide":                              # g.i = total width, g.j = exponent wk
+            cnt = g["i"] - self.n * 4 ** g["j"]
+            if not (0 <= g["j"] <= WIDEKMAX and 0 <= cnt <= PADMAX and (cnt > 0 or g["j"] > 0)
+                    and (g["lay"] == "none") == (cnt == 0) and g["lay"] in ("append", "interleave", "prepend", "none")):
+                return False
+            self.pad = {"cnt": cnt, "lay": g["lay"], "wk": g["j"]}
         elif k == "swaprows":
             for v in (self.J, self.P, self.W, self.c1, self.c2):
                 v[i], v[j] = v[j], v[i]
@@ -236,14 +249,26 @@ def make_recipe(rng: random.Random, pid: str, ep: int) -> dict:
         g = random_gen(rng, inst, pid)
         if inst.apply(g):
             gens.append(g)
-    if pid == "C08" and rng.random() < 0.3:
+    u = rng.random()
+    if pid == "C08" and u < 0.25:
         # close the word with a block of zero columns of ANY size up to 2^14 (small, a power of two, or large)
         cnt = rng.choice([rng.randint(1, 64), 2 ** rng.randint(7, 14), rng.randint(4096, PADMAX)])
-        g = {"g": "pad", "i": cnt, "j": 2, "q": [1, 2, 3, 4], "lay": rng.choice(["append", "interleave"])}
+        g = {"g": "pad", "i": cnt, "j": 2, "q": [1, 2, 3, 4], "lay": rng.choice(["append", "interleave", "prepend"])}
+        if inst.apply(g):
+            gens.append(g)
+    elif pid == "C08" and u < 0.5:
+        # ... or with a WIDE presentation: a width of the model's ladder, one next to it, or any width; every column
+        # repeated 4^wk times (any exponent that fits), the rest zero columns in any layout
+        w = rng.choice([rng.choice(WIDTHS), rng.choice(WIDTHS) + rng.choice([-2, -1, 1, 2]), rng.randint(513, 12000)])
+        km = max(k for k in range(WIDEKMAX + 1) if inst.n * 4 ** k <= w)
+        wk = rng.choice([km, km, max(km - 1, 0), rng.randint(0, km)])
+        cnt = w - inst.n * 4 ** wk
+        g = {"g": "wide", "i": w, "j": wk, "q": [1, 2, 3, 4],
+             "lay": "none" if cnt == 0 else rng.choice(["append", "interleave", "prepend"])}
         if inst.apply(g):
             gens.append(g)
     return {"ep": ep, "pid": pid, "J0": J0, "P0": P0, "W0": W0, "gens": gens, "e": rng.choice(SCALES),
-            "seed": rng.randrange(2 ** 30)}
+            "seed": rng.randrange(2 ** 30), "pres": rng.choice(PRESENTATIONS) if pid != "C09" else "fresh"}
 
 
 # ------------------------------------------------------------------------------------------ execution on the real code
@@ -267,10 +292,18 @@ def _exact_outputs(M: torch.Tensor, P, W, m: int, e: int, seed: int, sp: dict | 
 
     def run(agg):
         x = call(agg, M, seed)
-        if sp is not None and sp["pad"]["cnt"] and not isinstance(x, str):
+        if sp is not None and presented(sp) and not isinstance(x, str):
             xm, _ = split_padded(x, sp)
             nz[0] += int((x != 0).sum()) - int((xm != 0).sum())
-            x = xm
+            wk = sp["pad"]["wk"]
+            if wk:
+                # wide: logged per COLUMN of the matrix, in its units (copy * 2^wk); "irr" unless all 4^wk copies agree
+                xb = torch.ldexp(xm.reshape(-1, 4 ** wk), torch.tensor(wk))
+                same = (xb.max(dim=1).values == xb.min(dim=1).values) | \
+                       torch.tensor([len({rationalise(math.ldexp(v, -e)) for v in torch.unique(row).tolist()}) == 1 for row in xb])
+                x = torch.where(same, xb[:, 0], torch.full_like(xb[:, 0], float("nan")))
+            else:
+                x = xm
         return _rat(x, e)
     o = {k: run(build(nm, P, W)) for k, nm in
          (("mean", "Mean"), ("sum", "Sum"), ("constP", "ConstantP"), ("constW", "ConstantW"))}
@@ -301,7 +334,7 @@ def execute(recipe: dict) -> dict:
     M0, M1 = ld(J0, e), present(ld(inst.J, e, inst.den), sp)
     ep = {"ep": recipe["ep"], "kind": kind, "m": m, "n": inst.n0, "J0": J0, "P0": P0, "W0": W0, "gens": recipe["gens"],
           "J": inst.J, "den": inst.den, "P": inst.P, "W": inst.W, "c1": inst.c1, "c2": inst.c2, "a": inst.a, "b": inst.b,
-          "cls": cls, "prefDeg": pref_deg, "e": e, "pad": inst.pad, "padpos": inst.padpos,
+          "cls": cls, "prefDeg": pref_deg, "e": e, "pad": inst.pad, "padpos": inst.padpos, "pres": recipe.get("pres", "fresh"),
           "out0": _exact_outputs(M0, P0, W0, m, e, seed), "out1": _exact_outputs(M1, inst.P, inst.W, m, e, seed, sp)}
     ep["padnz"] = ep["out1"].pop("padnz")
     ep["out0"].pop("padnz")
@@ -368,7 +401,22 @@ def execute(recipe: dict) -> dict:
             # transformed matrix is handed over as a temporary (no reference kept by this driver during the call)
             a0 = build(name, P0, W0)
             a1 = a0 if (r["params"] is None or (inst.P, inst.W) == (P0, W0)) else build(name, inst.P, inst.W)
-            x0, x1 = call(a0, M0, seed), call(a1, M1.clone(), seed)
+            x0 = call(a0, M0, seed)
+            pres = ep["pres"]
+            if pres == "fresh":
+                x1 = call(a1, M1.clone(), seed)
+            else:
+                # the SAME aggregator object first sees ANOTHER matrix (rows reversed and scaled: another Gramian) in
+                # the storage, which is then overwritten in place with the transformed matrix (spec HistLaw)
+                mm, ww = M1.shape
+                big = torch.full((mm + 2, ww + 3), float("nan"), dtype=F64)
+                cell = torch.empty(mm, ww, dtype=F64) if pres == "refill" else big[1:mm + 1, 2:ww + 2]
+                cell.copy_(M1.flip(0) * torch.arange(2, mm + 2, dtype=F64).unsqueeze(1))
+                call(a1, cell, seed)
+                if pres == "newview":
+                    cell = big[1:mm + 1, 2:ww + 2]
+                cell.copy_(M1)
+                x1 = call(a1, cell, seed)
             if isinstance(x0, str) or isinstance(x1, str):
                 ent["ok"] = isinstance(x0, str) and isinstance(x1, str)
             else:
@@ -406,7 +454,9 @@ def validate(ctx: Ctx, pid: str, episodes: list[dict], recipes: dict | None = No
             raise MachineryError(f"driver and specification disagree ({rj['clause']}) on episode {e['ep']}: "
                                  f"J0={e['J0']} gens={e['gens']}")
         word = ">".join(g["g"] + (str(g["q"]) if g["g"] == "hadamard" else f"{g['i']}{g['lay']}" if g["g"] == "pad"
-                                  else f"{g['i']},{g['j']}") for g in e["gens"])
+                                  else f"{g['i']}x4^{g['j']}{g['lay']}" if g["g"] == "wide"
+                                  else f"{g['i']},{g['j']}") for g in e["gens"]) + \
+               (f":pres={e['pres']}" if e.get("pres", "fresh") != "fresh" else "")
         key = f"{pid}:trace:{rj['clause']}:{rj['agg']}:J0={e['J0']}:P0={e['P0']}:W0={e['W0']}:{word}:e={e['e']}"
         if rj["clause"] == "float_relation" and rj["agg"] == "ConFIGP" and e["prefDeg"]:
             key = f"{pid}:ConFIG:pref_weight_only_on_zero_rows"       # same stable key as the S->C part
@@ -429,6 +479,9 @@ def run_cs(ctx: Ctx, pid: str, n_episodes: int) -> dict:
     from .par import pmap
     rng = random.Random(ctx.seed * 7919 + int(pid[1:]))
     recipes = [make_recipe(rng, pid, k + 1) for k in range(n_episodes)]
+    for k in ("wide", "pad"):
+        ctx.count(f"trace_episodes_closed_by_{k}", sum(1 for r in recipes if r["gens"] and r["gens"][-1]["g"] == k))
+    ctx.count("trace_episodes_one_object_refilled_storage", sum(1 for r in recipes if r["pres"] != "fresh"))
     import torchjd.aggregation  # noqa: F401
     episodes = pmap(_exec, recipes, chunksize=4)
     ctx.evaluations += sum(2 * (4 + len(e["out0"]["tm"]) + len(e["out0"]["krum"])) + 2 * len(e["flt"]) for e in episodes)
